@@ -323,19 +323,19 @@ theorem res_while (c : Tm) (t1 : Table) (b : Tm) :
        (res b (res c rs).2.beginScope).2.endScope.2) := rfl
 theorem res_for (tF : Table) (dI d : Nat) (x : Name) (iter : Tm) (tB : Table) (b : Tm) :
     res (.forS tF dI d x iter tB b) rs =
-      (.forS (res b (res iter ((rs.beginScope.declareDefine dI ITER_VAR).declareDefine d x)).2.beginScope).2.endScope.2.endScope.1 dI d x
-         (res iter ((rs.beginScope.declareDefine dI ITER_VAR).declareDefine d x)).1
-         (res b (res iter ((rs.beginScope.declareDefine dI ITER_VAR).declareDefine d x)).2.beginScope).2.endScope.1
-         (res b (res iter ((rs.beginScope.declareDefine dI ITER_VAR).declareDefine d x)).2.beginScope).1,
-       (res b (res iter ((rs.beginScope.declareDefine dI ITER_VAR).declareDefine d x)).2.beginScope).2.endScope.2.endScope.2) := rfl
+      (.forS (res b (((res iter rs.beginScope).2.declareDefine dI ITER_VAR).declareDefine d x).beginScope).2.endScope.2.endScope.1 dI d x
+         (res iter rs.beginScope).1
+         (res b (((res iter rs.beginScope).2.declareDefine dI ITER_VAR).declareDefine d x).beginScope).2.endScope.1
+         (res b (((res iter rs.beginScope).2.declareDefine dI ITER_VAR).declareDefine d x).beginScope).1,
+       (res b (((res iter rs.beginScope).2.declareDefine dI ITER_VAR).declareDefine d x).beginScope).2.endScope.2.endScope.2) := rfl
 theorem res_try (tB : Table) (b : Tm) (tC : Table) (d : Nat) (x : Name) (o : Nat) (cn : Name) (tCB : Table) (c : Tm) :
     res (.tryS tB b tC d x o cn tCB c) rs =
       (.tryS (res b rs.beginScope).2.endScope.1 (res b rs.beginScope).1
-         (res c (((res b rs.beginScope).2.endScope.2.beginScope.declareDefine d x).resolveVar o cn).beginScope).2.endScope.2.endScope.1
+         (res c (((res b rs.beginScope).2.endScope.2.beginScope.resolveVar o cn).declareDefine d x).beginScope).2.endScope.2.endScope.1
          d x o cn
-         (res c (((res b rs.beginScope).2.endScope.2.beginScope.declareDefine d x).resolveVar o cn).beginScope).2.endScope.1
-         (res c (((res b rs.beginScope).2.endScope.2.beginScope.declareDefine d x).resolveVar o cn).beginScope).1,
-       (res c (((res b rs.beginScope).2.endScope.2.beginScope.declareDefine d x).resolveVar o cn).beginScope).2.endScope.2.endScope.2) := rfl
+         (res c (((res b rs.beginScope).2.endScope.2.beginScope.resolveVar o cn).declareDefine d x).beginScope).2.endScope.1
+         (res c (((res b rs.beginScope).2.endScope.2.beginScope.resolveVar o cn).declareDefine d x).beginScope).1,
+       (res c (((res b rs.beginScope).2.endScope.2.beginScope.resolveVar o cn).declareDefine d x).beginScope).2.endScope.2.endScope.2) := rfl
 theorem res_class (d : Nat) (c : Name) (oSup : Nat) (sup : Name) (oName : Nat) (t0 : Table) (dSuper : Nat) (ms : Tm) :
     res (.classS d c oSup sup oName t0 dSuper ms) rs =
       (.classS d c oSup sup oName
@@ -493,19 +493,19 @@ theorem res_inv (t : Tm) : ResIH t := by
     simp only [namesOk, Bool.and_eq_true] at hn
     rw [res_for]
     obtain ⟨b0, m0, l0⟩ := beginScope_ok rs h
-    obtain ⟨b1, m1, l1⟩ := declareDefine_ok _ dI ITER_VAR b0
-    obtain ⟨b2, m2, l2⟩ := declareDefine_ok _ d x b1
-    obtain ⟨s3, r3⟩ := ihi _ hn.1 b2
-    obtain ⟨s4, r4⟩ := res_scope ihb hn.2 s3.1
-    have hlen : (res b (res iter ((rs.beginScope.declareDefine dI ITER_VAR).declareDefine d x)).2.beginScope).2.endScope.2.tables.length = rs.tables.length + 1 := by
-      rw [s4.2.2, s3.2.2, l2, l1, l0]
-    have hne : (res b (res iter ((rs.beginScope.declareDefine dI ITER_VAR).declareDefine d x)).2.beginScope).2.endScope.2.tables ≠ [] := by
+    obtain ⟨s1, r1⟩ := ihi _ hn.1 b0
+    obtain ⟨b2, m2, l2⟩ := declareDefine_ok _ dI ITER_VAR s1.1
+    obtain ⟨b3, m3, l3⟩ := declareDefine_ok _ d x b2
+    obtain ⟨s4, r4⟩ := res_scope ihb hn.2 b3
+    have hlen : (res b (((res iter rs.beginScope).2.declareDefine dI ITER_VAR).declareDefine d x).beginScope).2.endScope.2.tables.length = rs.tables.length + 1 := by
+      rw [s4.2.2, l3, l2, s1.2.2, l0]
+    have hne : (res b (((res iter rs.beginScope).2.declareDefine dI ITER_VAR).declareDefine d x).beginScope).2.endScope.2.tables ≠ [] := by
       intro hh; rw [hh] at hlen; simp at hlen
     obtain ⟨b5, m5, l5, t5⟩ := endScope_ok _ s4.1 hne
-    refine ⟨⟨b5, fun he => m0 (m1 (m2 (s3.2.1 (s4.2.1 (m5 he))))), by dsimp only; omega⟩, fun he => ?_⟩
+    refine ⟨⟨b5, fun he => m0 (s1.2.1 (m2 (m3 (s4.2.1 (m5 he))))), by dsimp only; omega⟩, fun he => ?_⟩
     rw [endScope_errors] at he
     simp only [treeOk, Bool.and_eq_true]
-    exact ⟨⟨⟨t5 he, r3 (s4.2.1 he)⟩, (r4 he).1⟩, (r4 he).2⟩
+    exact ⟨⟨⟨t5 he, r1 (m2 (m3 (s4.2.1 he)))⟩, (r4 he).1⟩, (r4 he).2⟩
   | tryS tB b tC d x o cn tCB c ihb ihc =>
     intro rs hn h
     simp only [namesOk, Bool.and_eq_true] at hn
@@ -513,12 +513,12 @@ theorem res_inv (t : Tm) : ResIH t := by
     rw [res_try]
     obtain ⟨s1, r1⟩ := res_scope ihb hb h
     obtain ⟨b2, m2, l2⟩ := beginScope_ok _ s1.1
-    obtain ⟨b3, m3, l3⟩ := declareDefine_ok _ d x b2
-    obtain ⟨b4, m4, l4⟩ := resolveVar_ok _ o cn b3
+    obtain ⟨b3, m3, l3⟩ := resolveVar_ok _ o cn b2
+    obtain ⟨b4, m4, l4⟩ := declareDefine_ok _ d x b3
     obtain ⟨s5, r5⟩ := res_scope ihc hc b4
-    have hlen : (res c (((res b rs.beginScope).2.endScope.2.beginScope.declareDefine d x).resolveVar o cn).beginScope).2.endScope.2.tables.length = rs.tables.length + 1 := by
+    have hlen : (res c (((res b rs.beginScope).2.endScope.2.beginScope.resolveVar o cn).declareDefine d x).beginScope).2.endScope.2.tables.length = rs.tables.length + 1 := by
       rw [s5.2.2, l4, l3, l2, s1.2.2]
-    have hne : (res c (((res b rs.beginScope).2.endScope.2.beginScope.declareDefine d x).resolveVar o cn).beginScope).2.endScope.2.tables ≠ [] := by
+    have hne : (res c (((res b rs.beginScope).2.endScope.2.beginScope.resolveVar o cn).declareDefine d x).beginScope).2.endScope.2.tables ≠ [] := by
       intro hh; rw [hh] at hlen; simp at hlen
     obtain ⟨b6, m6, l6, t6⟩ := endScope_ok _ s5.1 hne
     refine ⟨⟨b6, fun he => s1.2.1 (m2 (m3 (m4 (s5.2.1 (m6 he))))), by dsimp only; omega⟩, fun he => ?_⟩
